@@ -49,6 +49,9 @@ pub struct TState {
     pub max_queue_size: u32,
     /// per-queue override of the `queue_used` answer (default: whether it is currently set)
     pub force_in_use: Vec<u16>,
+    /// a device whose "in use" answer does not become true when a queue is configured (it enables queues
+    /// lazily, or the transport cannot tell): the answer stays false
+    pub never_in_use: bool,
     pub queues: Vec<QueueReg>,
     pub log: Vec<(u64, TCall)>,
     pub config: Vec<u8>,
@@ -74,6 +77,7 @@ impl TState {
             legacy: false,
             max_queue_size,
             force_in_use: vec![],
+            never_in_use: false,
             queues: vec![QueueReg::default(); nqueues],
             log: vec![],
             config: vec![],
@@ -195,7 +199,7 @@ impl Transport for ModelTransport {
     fn queue_used(&mut self, queue: u16) -> bool {
         let mut s = self.st.borrow_mut();
         s.log.push((crate::hal::tick(), TCall::QueueUsed(queue)));
-        s.force_in_use.contains(&queue) || s.queues.get(queue as usize).map(|q| q.set).unwrap_or(false)
+        s.force_in_use.contains(&queue) || (!s.never_in_use && s.queues.get(queue as usize).map(|q| q.set).unwrap_or(false))
     }
     fn ack_interrupt(&mut self) -> InterruptStatus {
         let mut s = self.st.borrow_mut();
